@@ -59,6 +59,10 @@ struct ThreadCtx {
     measure_residents: bool,
 }
 
+thread_local! {
+    static HASH_MODE: std::cell::Cell<HashMode> = const { std::cell::Cell::new(HashMode::Fixed) };
+}
+
 fn now_ns(clock: &VerifClock, base: std::time::Instant) -> u64 {
     clock.now().saturating_duration_since(base).as_nanos() as u64
 }
@@ -210,6 +214,7 @@ fn policy_of(spec: &SchedSpec) -> Policy {
 /// Runs one thr/burst trace. Returns the report and the schedule that was actually taken.
 pub fn run_thr(trace: &Trace) -> (RunReport, Vec<u8>) {
     let cfg = &trace.config;
+    HASH_MODE.with(|m| m.set(cfg.hasher));
     let n = trace.threads.len();
     let mut rep = RunReport::default();
     let reg = Registry::new();
@@ -603,6 +608,19 @@ pub fn run_thr(trace: &Trace) -> (RunReport, Vec<u8>) {
 }
 
 fn finish_flags(rep: &mut RunReport, shared: &Arc<Shared>, hist: &[Rec], schedule: &[u8]) {
+    {
+        let mut keys: BTreeSet<u16> = BTreeSet::new();
+        for r in hist {
+            if let Some(k) = r.op.key() {
+                keys.insert(k);
+            }
+        }
+        for i in 0..32u16 {
+            keys.insert(1000 + i);
+        }
+        let keys: Vec<u16> = keys.into_iter().collect();
+        rep.keyed = crate::hooks::resolve_keyed(shared, HASH_MODE.with(|m| m.get()), &keys);
+    }
     for (k, v) in shared.probes.lock().unwrap().iter() {
         rep.probes.insert(k.to_string(), *v);
     }
